@@ -59,6 +59,7 @@ type HObs struct {
 	Peer        string
 	Panicked    bool
 	PanicValue  any
+	RecvErrs    []string
 }
 
 // CallObs is everything observed about one call.
@@ -135,6 +136,9 @@ func procName(h int, k Kind) string {
 
 func (w *World) newAlgo(name string) *algo {
 	a := &algo{name: name}
+	if w.Sc.AlgoYield {
+		a.yield = func(key string) { w.S.Gate(key, nil) }
+	}
 	if f := w.Sc.CompFault; f != nil {
 		side := 0
 		if w.buildingClient {
@@ -417,6 +421,12 @@ func (w *World) runProg(ctx context.Context, o *CallObs, st hstream) {
 		}
 		b, err := st.recv()
 		if err != nil {
+			if p.KeepReceiving && !errors.Is(err, io.EOF) && len(h.RecvErrs) < 4 {
+				// a bidi handler that carries on after a rejected message
+				h.RecvErrs = append(h.RecvErrs, err.Error())
+				h.Recv = append(h.Recv, []byte("<rejected>"))
+				return true
+			}
 			h.RecvEnd, h.RecvEndSet = err, true
 			return false
 		}
